@@ -256,7 +256,9 @@ def annot (a : List (Key × Nat)) (k : Key) : Nat := (AL.get a k).getD 0
 
 def actMachine (timeout : Option Nat) : Machine Act (List (Key × Nat)) (List Key) where
   init t k := ⟨k, t, 0⟩
-  push t s p := (⟨s.key, t, s.n + 1⟩, List.replicate (annot p.body s.key) s.key)
+  -- for a close-flagged packet the annotation is the total of the call and of the destruction that follows: all of
+  -- it is attributed to `fini` (the driver prints the two outputs together)
+  push t s p := (⟨s.key, t, s.n + 1⟩, if p.close then [] else List.replicate (annot p.body s.key) s.key)
   cleanup _ a s := (s, List.replicate (annot a s.key) s.key)
   expired t s := match timeout with
     | none => false
